@@ -134,6 +134,13 @@ fn fault_space(ctx: &mut Ctx, s: &Sample, p: &mut Prng) {
     }
     // coordinates >= p that alias a genuine curve point: x' = x + p for a small x on the curve
     let lim: BigUint = (BigUint::one() << 256) - &c.p;
+    // the exact boundary first: x' = p is an alias of x = 0, and (0, sqrt(b)) is a curve point
+    if let Some(y0) = r2::sqrt_p(&c.b) {
+        for y in [y0.clone(), (&c.p - &y0) % &c.p] {
+            let pc = if s.lay.1 { if y.bit(0) { 3 } else { 2 } } else { 4 };
+            crafted(ctx, s, &r2::b32(&c.p), &r2::b32(&y), pc, "coordinate_x_eq_p_alias_of_zero");
+        }
+    }
     let mut xs = BigUint::from(p.below(1 << 20));
     let mut found = 0;
     while found < 2 {
@@ -204,7 +211,7 @@ pub fn run(ctx: &mut Ctx) {
     for (n, ok) in r2::selftest() {
         ctx.selftest(&n, ok);
     }
-    ctx.require(&["valid_decrypts", "bitflip_pc_byte", "bitflip_c1", "bitflip_c2_c3", "truncated_inside_c1", "truncated_inside_hash", "truncated_body", "pc_byte_illegal", "offcurve_y_plus_1", "invalid_curve_point", "coordinate_x_ge_p_alias", "coordinate_x_eq_p", "compressed_nonresidue_x", "c1_other_point", "c1_negated", "c3_zeroed", "extended"]);
+    ctx.require(&["valid_decrypts", "bitflip_pc_byte", "bitflip_c1", "bitflip_c2_c3", "truncated_inside_c1", "truncated_inside_hash", "truncated_body", "pc_byte_illegal", "offcurve_y_plus_1", "invalid_curve_point", "coordinate_x_ge_p_alias", "coordinate_x_eq_p", "coordinate_x_eq_p_alias_of_zero", "compressed_nonresidue_x", "c1_other_point", "c1_negated", "c3_zeroed", "extended"]);
     let c = r2::curve();
     let nsamples = ctx.n(24, 600);
     let mut prng = ctx.prng("samples");
